@@ -50,12 +50,15 @@ try:
         rc1, out1 = sh(a.demo, cwd=scratch)
         res["demo_fails_with_change"] = rc1 != 0
         res["demo_with_change_tail"] = out1[-400:]
-        sh("git apply -R --whitespace=nowarn %s/patch.diff" % seed, cwd=scratch)
+        # back to HEAD for the tracked files (the demo files are untracked and stay), then the change again
+        sh("git checkout -q -- .", cwd=scratch)
         rc2, out2 = sh(a.demo, cwd=scratch)
         res["demo_passes_without_change"] = rc2 == 0
         if rc2 != 0:
             res["demo_without_change_tail"] = out2[-400:]
-        sh("git apply --whitespace=nowarn %s/patch.diff" % seed, cwd=scratch)
+        rc3, _ = sh("git apply --whitespace=nowarn %s/patch.diff" % seed, cwd=scratch)
+        if rc3 != 0:
+            sh("git apply -3 --whitespace=nowarn %s/patch.diff && git reset -q" % seed, cwd=scratch)
         if os.path.isdir(df):
             # remove demo files again so that the checked tree is patch-only
             for root, _, files in os.walk(df):
